@@ -688,6 +688,22 @@ def run_chain_case(ctx):
                                 sweep=s, got=e, lowest_exact=want, dist=dist)
                     stop = True
                     break
+                # several roots: distinct eigenpairs, i.e. a one-to-one assignment to eigenvalues of A (with multiplicity)
+                if len(e) > 1:
+                    avail = list(a)
+                    unmatched = []
+                    for xval in e:
+                        tol = 4e-6 * max(1.0, abs(xval)) + 2e-10 * specr
+                        j = int(np.argmin([abs(y - xval) for y in avail])) if avail else -1
+                        if j >= 0 and abs(avail[j] - xval) <= tol:
+                            avail.pop(j)
+                        else:
+                            unmatched.append(float(xval))
+                    if unmatched:
+                        ctx.violate(f"complete-local-problem|converged-roots-are-not-distinct-eigenvalues|{method}" + sfx,
+                                    sweep=s, got=e, unmatched=unmatched, lowest_exact=a[:len(e) + 2])
+                        stop = True
+                        break
                 ctx.cls("complete-iterative:lowest-found" if np.all(np.abs(e - want) <= 2e-6 * np.maximum(1.0, np.abs(want))
                                                                   + 1e-10 * specr) else "complete-iterative:higher-eigenvalues-found")
             else:
